@@ -50,6 +50,65 @@ Proof.
   rewrite hex_is_hexstr by (apply Forall_firstn; exact (ent_wf _ _ Ee)). reflexivity.
 Qed.
 
+(* ---- pwd ---- *)
+Definition pwd_path (n i : Z) : str :=
+  s_prefix ++ [55;48;55;55;54;52] ++ q_slash ++ WalletUtils.str_of_int n ++ q_slash ++ WalletUtils.str_of_int i ++ q.
+Definition pwd_model (n i : Z) : res str :=
+  if negb ((20 <=? n) && (n <=? 86)) then Err else
+  do e <- ent (pwd_path n i); Ok (take (Z.to_nat n) (b64encode e)).
+
+(* base64 text: every character is one of the alphabet, '=' or (for out-of-range symbols, never produced from bytes) NUL:
+   ASCII, and never white space -- so .decode() and .strip() leave it as it is *)
+Lemma b64c_in v : In (b64c v) (0 :: b64_alphabet).
+Proof. unfold b64c. destruct (nth_in_or_default (Z.to_nat v) b64_alphabet 0) as [H|H]; [right; exact H|left; symmetry; exact H]. Qed.
+Lemma b64_chars : forall b, Forall (fun c => In c (61 :: 0 :: b64_alphabet)) (b64encode b).
+Proof.
+  fix IH 1. intros [|x [|y [|z r]]]; cbn [b64encode].
+  - constructor.
+  - repeat (constructor; [first [right; apply b64c_in | left; reflexivity]|]). constructor.
+  - repeat (constructor; [first [right; apply b64c_in | left; reflexivity]|]). constructor.
+  - repeat (constructor; [right; apply b64c_in|]). apply IH.
+Qed.
+Lemma b64_alpha_ok : forallb (fun c => (0 <=? c) && (c <? 128) && negb (is_ws c)) (61 :: 0 :: b64_alphabet) = true.
+Proof. vm_compute. reflexivity. Qed.
+Lemma b64_char_ok b : Forall (fun c => 0 <= c < 128 /\ is_ws c = false) (b64encode b).
+Proof.
+  eapply Forall_impl; [|apply b64_chars]. intros c Hc. cbv beta in Hc.
+  pose proof (proj1 (forallb_forall _ _) b64_alpha_ok c Hc) as H. cbv beta in H.
+  destruct (is_ws c); [rewrite andb_false_r in H; discriminate|]. split; [lia|reflexivity].
+Qed.
+Lemma b64_ascii b : ascii (b64encode b) = true.
+Proof. apply ascii_Forall. eapply Forall_impl; [|apply (b64_char_ok b)]. intros c [H _]. exact H. Qed.
+Lemma lstrip_nows s : match s with c :: _ => is_ws c = false | [] => True end -> lstrip s = s.
+Proof. destruct s as [|c r]; [reflexivity|]. intros H. cbn [lstrip]. rewrite H. reflexivity. Qed.
+Lemma strip_nows s : Forall (fun c => is_ws c = false) s -> strip s = s.
+Proof.
+  intros H. unfold strip. rewrite (lstrip_nows s) by (destruct H; [exact I|assumption]).
+  rewrite lstrip_nows; [apply rev_involutive|].
+  apply Forall_rev in H. destruct H; [exact I|assumption].
+Qed.
+
+Lemma pwd_sem fuel self n i :
+  agrees (sem_bip85__BIP85DeterministicEntropy__pwd ext fuel [self; VInt n; VInt i]) (rmap VStr (pwd_model n i)).
+Proof.
+  unfold pwd_model. remember (pwd_path n i) as P eqn:EP.
+  unfold sem_bip85__BIP85DeterministicEntropy__pwd, call, ast_bip85__BIP85DeterministicEntropy__pwd. pystep.
+  destruct (20 <=? n) eqn:E1; pystep.
+  2:{ exists ValueError. split; [reflexivity|split; discriminate]. }
+  destruct (n <=? 86) eqn:E2; pystep.
+  2:{ exists ValueError. split; [reflexivity|split; discriminate]. }
+  rewrite !str_of_int_eq. rewrite ext_entropy.
+  match goal with |- context [match ent ?p with _ => _ end] => replace p with P by (rewrite EP; reflexivity) end.
+  destruct (ent P) as [e|] eqn:Ee; pystep; cbn [bind rmap agrees].
+  2:{ exists ValueError. split; [reflexivity|split; discriminate]. }
+  assert (Hw : forallb (fun c => (0 <=? c) && (c <? 256)) e = true).
+  { apply forallb_forall. intros c Hc. pose proof (ent_wf _ _ Ee) as W. unfold wf_bytes in W. rewrite Forall_forall in W.
+    specialize (W c Hc). unfold byte_ok in W. lia. }
+  rewrite Hw. pystep. rewrite b64_ascii. pystep. rewrite b64_ascii. pystep.
+  unfold strip_ws. rewrite strip_nows by (eapply Forall_impl; [|apply (b64_char_ok e)]; intros c [_ H]; exact H).
+  rewrite slice_to by lia. reflexivity.
+Qed.
+
 (* ---- bip39_mnemonic ---- *)
 Lemma byte_count_sem fuel wc :
   sem_bip85__BIP85DeterministicEntropy__byte_count_from_word_count ext fuel [VInt wc]
